@@ -266,6 +266,22 @@ Definition chk (c : streams * list (rop * xp)) : bool := replay (mkR (fst c) [] 
     elif len({tuple(k) for k in runs[0]}) != len(runs[0]):
       chk.violation('oracle', 'two draws at different module paths returned the same key: scopes handed to lift.jit / fold_rngs (%s form) as arguments lose their path' % c['form'],
                     {'case': c, 'observed': runs[0]})
+  # NNX streams inside a Linen program (nnx.bridge.ToLinen reseeds them on every apply)
+  bk = [{'skip_rng': sk, 'stream': rng.choice(['dropout', 'noise']), 'own_seed': rng.randint(0, 5), 'calls': rng.randint(2, 3), 'seed': rng.randint(1, 50)} for sk in (True, False)]
+  bkr = common.run_impl('impl_c09.py', {'bridge_keys': bk}, timeout=900)['bridge_keys']
+  for c, r in zip(bk, bkr):
+    chk.count({'bridge_keys': c}, True)
+    if 'err' in r:
+      chk.violation('oracle', 'an NNX module drawing keys inside a Linen model (ToLinen) could not be applied: %s' % r['err'], {'case': c, 'tb': r.get('tb')})
+      continue
+    o = r['ok']
+    if o['a'] != o['a_again']:
+      chk.violation('oracle', 'NNX stream under ToLinen: the same program with the same seeds handed out other keys on a second apply', {'case': c, 'observed': o})
+    elif len({tuple(k) for k in o['a']}) != len(o['a']):
+      chk.violation('oracle', 'NNX stream under ToLinen (skip_rng=%s): two calls within one apply drew the same key' % c['skip_rng'], {'case': c, 'observed': o})
+    elif any(k in o['b'] for k in o['a']):
+      chk.violation('oracle', 'NNX stream under ToLinen (skip_rng=%s): applies with different seed keys handed out the same key (the stream is not reseeded from the Linen rngs of the call)' % c['skip_rng'],
+                    {'case': c, 'observed': o})
   # several Rngs objects in one model holding streams of the same name: reseed restarts each of them
   rm = [{'nblocks': rng.randint(2, 3), 'draws_before': [rng.randint(0, 3) for _ in range(3)], 'draws_after': rng.randint(1, 3), 'seed': rng.randint(40, 60)} for _ in range(12 if thorough else 4)]
   rr = common.run_impl('impl_c09.py', {'reseed_multi': rm})['reseed_multi']
